@@ -7,7 +7,7 @@ import sys
 from concurrent.futures import ThreadPoolExecutor
 
 
-def run(rep, tier, prop, module, kinds, name, bound, count_keys, quick=(8, 25), thorough=(16, 400), contract="GridScenarios", keep=None):
+def run(rep, tier, prop, module, kinds, name, bound, count_keys, quick=(8, 25), thorough=(16, 400), contract="GridScenarios", keep=None, known_kinds=None):
     nproc, nscen = quick if tier == "quick" else thorough
 
     def one(seed):
@@ -30,6 +30,13 @@ def run(rep, tier, prop, module, kinds, name, bound, count_keys, quick=(8, 25), 
     rep.paths += work
     rep.sym_paths += work
     rep.bounds.append("%s [%s%s]" % (bound, ", ".join("%d %s" % (v, k_) for k_, v in counts.items()), ("; outcomes not judged: " + ", ".join("%d x %s" % (v, k_) for k_, v in sorted(notes.items()))) if notes else ""))
+    # problems of a kind that IS a listed known finding (identified by its own, narrower kind) are reported as such, never as violations
+    for kind_, fid in (known_kinds or {}).items():
+        if any(p.get("kind") == kind_ for r in reports for p in r["problems"]):
+            from pyvc.runner import load_known_findings
+            for f in load_known_findings():
+                if f.get("id") == fid and f.get("status") == "known" and f.get("property") == prop and not any(k_["id"] == fid for k_ in rep.known):
+                    rep.known.append(f)
     harness = [p for r in reports for p in r["problems"] if p.get("kind") == "harness"]
     bad = [p for r in reports for p in r["problems"] if p.get("kind") in kinds and (keep is None or keep(p))]
     full = contract + ":" + name
